@@ -107,7 +107,11 @@ func c03Frames(rt *rapid.T) {
 	}
 	// sentinel bytes after the last frame must stay unread
 	stream.Write([]byte{0xde, 0xad})
-	cr := &countingReader{r: bytes.NewReader(stream.Bytes())}
+	var under io.Reader = bytes.NewReader(stream.Bytes())
+	if rapid.Bool().Draw(rt, "shortReads") {
+		under = &chunkReader{r: under, chunks: drawChunks(rt)}
+	}
+	cr := &countingReader{r: under}
 	for i, f := range frames {
 		before := cr.n
 		dec, err := codec.DecodeFrame(cr)
@@ -117,7 +121,7 @@ func c03Frames(rt *rapid.T) {
 		if cr.n-before != lens[i] {
 			rt.Fatalf("DecodeFrame consumed %d bytes for frame %d, whose header+declared body is %d bytes (opcode %v, v%d, comp %s)", cr.n-before, i, lens[i], f.Header.OpCode, v, comp)
 		}
-		if d := canon.Diff(f, dec); d != "" {
+		if d := diffFrames(f, dec); d != "" {
 			rt.Fatalf("frame %d of the stream decoded differently: %s", i, d)
 		}
 	}
